@@ -53,6 +53,7 @@ func TestRaced(t *testing.T) {
 	for i := 0; i < n; i++ {
 		c := gen.Example(int(pb.Seed("raced")%1000003) + i)
 		js, _ := json.Marshal(c)
+		restoreProcs, procsClass := pb.FlipProcs(js)
 		saveCurrent("safekv_raced", js)
 		rec := &pb.Rec{}
 		reps := 1
@@ -65,6 +66,8 @@ func TestRaced(t *testing.T) {
 				t.Fatalf("raced program %s: %v", js, err)
 			}
 		}
+		restoreProcs()
+		rec.ClassIf(procsClass != "", procsClass)
 		st.Case(js, rec)
 	}
 }
@@ -107,6 +110,7 @@ func TestRacedLoops(t *testing.T) {
 	for i := 0; i < n; i++ {
 		c := gen.Example(int(pb.Seed("loops")%1000003) + i)
 		js, _ := json.Marshal(c)
+		restoreProcs, procsClass := pb.FlipProcs(js)
 		saveCurrent("safekv_raced_loops", js)
 		runLoops(c)
 		rec := &pb.Rec{}
@@ -123,6 +127,8 @@ func TestRacedLoops(t *testing.T) {
 		}
 		rec.NonTrivialIf(snap && wr)
 		rec.ClassIf(snap && wr, "snapshot method vs writer in different goroutines")
+		restoreProcs()
+		rec.ClassIf(procsClass != "", procsClass)
 		st.Case(js, rec)
 	}
 }
